@@ -478,6 +478,22 @@ def run(rep, tier, seed):
             if Node.get_node_instance(z.id) is not z:
                 rep.violation(f"{PID}:fresh-node-not-retrievable", z.id, {"kind": "ids", "n": cnt})
             cnt += 1
+    # ids the caller chose that differ only in letter case (or in what a "tidy" key function would fold: padding, Unicode
+    # composition) are DIFFERENT ids: each node is retrievable as itself, deleting one leaves the others alone
+    Node.store.clear()
+    fam = ["DS-a1", "ds-A1", "ds-a1", "DS-A1", " ds-a1", "ds-a1 ", "Jos\u00e9", "Jose\u0301", "\u212b", "\u00c5"]
+    made = [Node("n", id=i_) for i_ in fam]
+    for i_, x in zip(fam, made):
+        if Node.get_node_instance(i_) is not x:
+            rep.violation(f"{PID}:explicit-id-not-retrievable-as-itself", f"id {i_!r} gives {Node.get_node_instance(i_)!r}", {"kind": "ids", "ids": fam})
+            break
+    Node.delete_node_instance(fam[0], children=False)
+    for i_, x in list(zip(fam, made))[1:]:
+        if Node.get_node_instance(i_) is not x:
+            rep.violation(f"{PID}:delete:unrelated-id-unregistered", f"deleting {fam[0]!r} made {i_!r} unavailable", {"kind": "ids", "ids": fam})
+            break
+    cnt += len(fam)
+    Node.store.clear()
     # ... also when the host program brings its own random number generator back to an earlier state between two batches
     # (re-seeding, setstate): that is no deliberate reuse of an id
     import random as _random
